@@ -20,7 +20,7 @@ import numpy as np
 from common import *
 
 IMPORTS = ("From CV Require Import Base.Cmp Base.LinAlg Model.C10_Conj Model.C10_ConjR.\n"
-           "From Coq Require Import QArith Reals String.\nFrom Interval Require Import Tactic.\nOpen Scope string_scope.")
+           "From Coq Require Import QArith Reals String List.\nFrom Interval Require Import Tactic.\nImport ListNotations.\nOpen Scope string_scope.")
 
 # ENCLOSURE cases: the R-valued likelihood formulas the theorems are about, evaluated on the case's inputs by `interval`
 ENC_TAC = ("unfold lik_gmrf, gmrf_logpdf, lik_gauss_cov, lik_gauss_prec, from_cov_scalar, from_prec_scalar, gaussian_of, gaussian_logpdf, "
@@ -479,7 +479,8 @@ def gen_sample_specs(ctx):
                 v[i] = Fraction(0)
         return [str(x) for x in v]
 
-    reps = ctx.n(2, 8)
+    reps = ctx.n(2, 14)
+    MAXM = ctx.n(6, 8)
     out = []
     # Gaussian forms
     for form in ["cov_recip", "prec_id", "prec_vec", "cov_mat"]:
@@ -488,7 +489,7 @@ def gen_sample_specs(ctx):
                 if form == "cov_mat" and iface == "exp":
                     continue          # refused by the experimental sampler (covered in the validation cells)
                 for rep in range(reps):
-                    m = rng.randint(1 if route == "direct" and form != "prec_vec" else 2, 6)
+                    m = rng.randint(1 if route == "direct" and form != "prec_vec" else 2, MAXM)
                     spec = {"family": "gaussian", "m": m, "prior": prior(), "route": route}
                     if form == "cov_recip":
                         spec.update(var="cov", dep=scalar_dep(Inv(V())))
@@ -521,7 +522,7 @@ def gen_sample_specs(ctx):
                             N = 2 if rep % 2 == 0 else 3
                             m = N * N
                         else:
-                            N, m = None, rng.randint(2 if order < 2 else 3, 6)
+                            N, m = None, rng.randint(2 if order < 2 else 3, MAXM)
                         spec = {"family": "gmrf", "m": m, "N": N, "two_d": two_d, "bc": bc, "order": order, "var": "prec",
                                 "dep": scalar_dep(V()), "prior": prior(), "route": route, "data": vec(m, rep % 2 == 1)}
                         if route == "joint":
